@@ -36,6 +36,8 @@ def projection(spec, ph):
             if c["k"] == "RLoad" and c["a"]["rs"] == 0:
                 return None
         c["pc"] = None
+        c.pop("pc0", None)
+    sp.pop("bounce", None)
     return sp
 
 
